@@ -650,8 +650,16 @@ def run_property(ctx: Ctx, pid: str, design_cfgs: list[str]) -> Outcome:
                 raise RuntimeError("CLI run failed: %s on %s" % (r["machinery"], r["desc"]))
     runs = refs + disturbed + forced + cli_runs
     t_runs = time.time() - t1
+    # 3c-4. the four trace validations are independent TLC jobs: run them side by side
+    from concurrent.futures import ThreadPoolExecutor
+
+    with ThreadPoolExecutor(max_workers=4) as _ex:
+        _f_a = _ex.submit(action_level, ctx, forced)
+        _f_s = _ex.submit(action_level_stateful, ctx, runs)
+        _f_u = _ex.submit(action_level_unit, ctx, runs)
+        _f_j = _ex.submit(judge, ctx, runs, pid)
+        alevel, slevel, ulevel, _judged = _f_a.result(), _f_s.result(), _f_u.result(), _f_j.result()
     # 3c. action-level trace validation of the fully forced unit-phase runs against Engine.tla's own actions
-    alevel = action_level(ctx, forced)
     for rej in alevel["rejected"][:5]:
         run = forced[rej["run"]]
         out.violations.append(Violation(
@@ -659,7 +667,6 @@ def run_property(ctx: Ctx, pid: str, design_cfgs: list[str]) -> Outcome:
             "forced run %s is not a behaviour of Engine.tla: stuck before line %s (%s)" % (run["origin"], rej["line"], rej["next"]),
             {"kind": "run", "desc": run["desc"], "clause": "EngineTrace", "line": rej["line"]}))
     # 3d. action-level trace validation of every stateful-only run against Stateful.tla's own actions
-    slevel = action_level_stateful(ctx, runs)
     for rej in slevel["rejected"][:5]:
         run = runs[rej["run"]]
         out.violations.append(Violation(
@@ -668,7 +675,6 @@ def run_property(ctx: Ctx, pid: str, design_cfgs: list[str]) -> Outcome:
                 {k: v for k, v in run["desc"].items() if k != "params"}, rej["line"], rej["next"], rej["context"]),
             {"kind": "run", "desc": run["desc"], "clause": "StatefulTrace", "line": rej["line"]}))
     # 3e. action-level trace validation of every free-running unit-phase run against Engine.tla's own actions
-    ulevel = action_level_unit(ctx, runs)
     for rej in ulevel["rejected"][:5]:
         run = runs[rej["run"]]
         out.violations.append(Violation(
@@ -677,7 +683,7 @@ def run_property(ctx: Ctx, pid: str, design_cfgs: list[str]) -> Outcome:
                 {k: v for k, v in run["desc"].items() if k != "params"}, rej["line"], rej["next"], rej["context"]),
             {"kind": "run", "desc": run["desc"], "clause": "UnitTrace", "line": rej["line"]}))
     # 4. trace validation
-    rejected, accepted, jres = judge(ctx, runs, pid)
+    rejected, accepted, jres = _judged
     own = 0
     foreign: dict[str, int] = {}
     for i, entries in sorted(rejected.items()):
